@@ -352,6 +352,13 @@ def f_undefined(tree):
     for p, nd, par in walk_nm(tree):
         if nd.kind in HTTP or nd.kind == "Method" or nd.kind == "URL":
             tags = [k for k in nd.kids if k.kind == "Tags"]
+            if tags and nd.kind != "URL":
+                # a SECOND Tags directive of the method (only the first gives the method its tags; every one is checked)
+                j = nd.kids.index(tags[0])
+                c2 = n("Tags @undeclaredzz")
+                yield "undefined-tag-in-second-tags", "second-tags", insert(tree, p + (j + 1,), c2), c2.uid, c2.uid, None
+                c3 = n("Tags")
+                yield "missing-tags", "second-tags", insert(tree, p + (len(nd.kids),), c3), c3.uid, c3.uid, None
             if tags:
                 i = nd.kids.index(tags[0])
                 cp = Node(tags[0].head + " @undeclaredzz")
